@@ -13,30 +13,6 @@ package cty
 //@   frame_only
 //@   writes cty.refinementNullable r
 //
-//@ func (*cty.RefinementBuilder).NumberRangeLowerBound
-//@   tags C20
-//@   frame_only
-//@   ensures (= result b)
-//@   writes cty.refinementNumber (wip_num (b_wip b))
-//
-//@ func (*cty.RefinementBuilder).NumberRangeUpperBound
-//@   tags C20
-//@   frame_only
-//@   ensures (= result b)
-//@   writes cty.refinementNumber (wip_num (b_wip b))
-//
-//@ func (*cty.RefinementBuilder).CollectionLengthLowerBound
-//@   tags C20
-//@   frame_only
-//@   ensures (= result b)
-//@   writes cty.refinementCollection (wip_coll (b_wip b))
-//
-//@ func (*cty.RefinementBuilder).CollectionLengthUpperBound
-//@   tags C20
-//@   frame_only
-//@   ensures (= result b)
-//@   writes cty.refinementCollection (wip_coll (b_wip b))
-//
 //@ func (*cty.RefinementBuilder).StringPrefixFull
 //@   tags C20
 //@   frame_only
@@ -143,36 +119,6 @@ package cty
 //@   fresh_obj cty.refinementString (wip_str (cty.RefinementBuilder.wip (select $H<cty.RefinementBuilder> result)))
 //@   fresh_obj cty.refinementCollection (wip_coll (cty.RefinementBuilder.wip (select $H<cty.RefinementBuilder> result)))
 //@   fresh_obj cty.refinementNullable (wip_nul (cty.RefinementBuilder.wip (select $H<cty.RefinementBuilder> result)))
-//
-//@ func (*cty.RefinementBuilder).NotNull
-//@   tags C20
-//@   frame_only
-//@   ensures (= result b)
-//@   writes cty.refinementNumber (wip_num (b_wip b))
-//@   writes cty.refinementString (wip_str (b_wip b))
-//@   writes cty.refinementCollection (wip_coll (b_wip b))
-//@   writes cty.refinementNullable (wip_nul (b_wip b))
-//
-//@ func (*cty.RefinementBuilder).Null
-//@   tags C20
-//@   frame_only
-//@   ensures (= result b)
-//@   writes cty.refinementNumber (wip_num (b_wip b))
-//@   writes cty.refinementString (wip_str (b_wip b))
-//@   writes cty.refinementCollection (wip_coll (b_wip b))
-//@   writes cty.refinementNullable (wip_nul (b_wip b))
-//
-//@ func (*cty.RefinementBuilder).CollectionLength
-//@   tags C20
-//@   frame_only
-//@   ensures (= result b)
-//@   writes cty.refinementCollection (wip_coll (b_wip b))
-//
-//@ func (*cty.RefinementBuilder).NumberRangeInclusive
-//@   tags C20
-//@   frame_only
-//@   ensures (= result b)
-//@   writes cty.refinementNumber (wip_num (b_wip b))
 //
 //@ func (*cty.RefinementBuilder).StringPrefix
 //@   tags C20
